@@ -756,7 +756,8 @@ def _canon(v: Any) -> Any:
             return ("hs", bool(v.fields.get("accepted")))
         return v.cls
     if isinstance(v, dict):
-        return ("dict", _canon(v.get("status")), bool(v.get("trailers", False)) if not isinstance(v.get("trailers", False), Opaque) else "opaque", _canon(v.get("type")))
+        hd = v.get("headers")
+        return ("dict", _canon(v.get("status")), bool(v.get("trailers", False)) if not isinstance(v.get("trailers", False), Opaque) else "opaque", _canon(v.get("type")), "bad-headers" if isinstance(hd, Opaque) and hd.tag == "bad" else "headers")
     if isinstance(v, (list, tuple, set)):
         return "seq"
     return v
